@@ -3,7 +3,7 @@
    every reachable one): wigm / wigm-prf / scotland (defeat_low with the rule's tie-break), wigm's own variant, cfer and
    Minneapolis.  Non-fuzzy arithmetics (Fixed / integer / Guarded guard 0), where "lowest" is lowest. *)
 From Coq Require Import ZArith List Bool String Lia.
-From Droop Require Import Model.KernelBase Model.Str Model.Arith Model.Prelude Model.State Model.Prims Model.RulesGregory
+From Droop Require Import Model.KernelBase Model.Str Model.Arith Model.Prelude Model.State Model.Prims Model.RulesGregory Model.RulesMeek
   Proofs.Zlike Proofs.Status Proofs.Ties Proofs.Forward Proofs.ForwardOps Proofs.Conserve.
 Import ListNotations.
 Open Scope Z_scope.
@@ -163,5 +163,81 @@ Proof.
   match goal with |- context[for_ballots A ?f ?sel s2] => pose proof (stl_for_ballots_gen f sel s2 (fun t b => stl_reweigh _ _ _ _ t b)) as E3; set (s3 := for_ballots A f sel s2) in * end.
   destruct (crashed s3); [rewrite E3; exact E2|].
   rewrite (cands_log A cfg), stl_set_vote, E3. exact E2.
+Qed.
+
+(* ================= QPQ: the candidate excluded has the lowest quotient, the candidate elected the highest ================= *)
+Lemma fold_minq_raw (l : list cand) (x : T A) :
+  let m := fold_left (fun m y => if ltv A (quo_of A y) m then quo_of A y else m) l x in
+  R m <= R x /\ (forall c, In c l -> R m <= R (quo_of A c)).
+Proof.
+  revert x. induction l as [|y l IH]; intros x; cbn [fold_left]; [split; [lia|intros c []]|].
+  specialize (IH (if ltv A (quo_of A y) x then quo_of A y else x)). cbv zeta in *. destruct IH as (Hle & Hall).
+  rewrite (r_ltv_exact A S ZL Hex) in *. destruct (R (quo_of A y) <? R x) eqn:E.
+  - split; [lia|]. intros c [<-|Hc]; [exact Hle|apply Hall; exact Hc].
+  - split; [exact Hle|]. intros c [<-|Hc]; [lia|apply Hall; exact Hc].
+Qed.
+Lemma fold_maxq_raw (l : list cand) (x : T A) :
+  let m := fold_left (fun m y => if gtv A (quo_of A y) m then quo_of A y else m) l x in
+  R x <= R m /\ (forall c, In c l -> R (quo_of A c) <= R m).
+Proof.
+  revert x. induction l as [|y l IH]; intros x; cbn [fold_left]; [split; [lia|intros c []]|].
+  specialize (IH (if gtv A (quo_of A y) x then quo_of A y else x)). cbv zeta in *. destruct IH as (Hle & Hall).
+  rewrite (r_gtv_exact A S ZL Hex) in *. destruct (R x <? R (quo_of A y)) eqn:E.
+  - split; [lia|]. intros c [<-|Hc]; [exact Hle|apply Hall; exact Hc].
+  - split; [exact Hle|]. intros c [<-|Hc]; [lia|apply Hall; exact Hc].
+Qed.
+Lemma min_quo_spec (l : list cand) lq : min_quo A l = Some lq -> forall c, In c l -> R lq <= R (quo_of A c).
+Proof.
+  unfold min_quo. destruct l as [|c0 l]; [discriminate|]. intros H. injection H as <-.
+  destruct (fold_minq_raw l (quo_of A c0)) as (Hle & Hall). cbv zeta in *. intros c [<-|Hc]; [exact Hle|apply Hall; exact Hc].
+Qed.
+Lemma max_quo_spec (l : list cand) hq : max_quo A l = Some hq -> forall c, In c l -> R (quo_of A c) <= R hq.
+Proof.
+  unfold max_quo. destruct l as [|c0 l]; [discriminate|]. intros H. injection H as <-.
+  destruct (fold_maxq_raw l (quo_of A c0)) as (Hle & Hall). cbv zeta in *. intros c [<-|Hc]; [exact Hle|apply Hall; exact Hc].
+Qed.
+
+(* one QPQ step, when it does not crash: the candidate whose status changes is a hopeful with the extreme quotient *)
+Theorem qpq_step_extreme_quotient (s : est) : crashed (qpq_step A cfg s) = false ->
+  exists c, In c (hopefuls A s) /\
+    ((forall c', In c' (hopefuls A s) -> R (quo_of A c') <= R (quo_of A c)) /\
+       stl (cands (qpq_step A cfg s)) = stl (upd_cand A (cid c) (fun x => with_st x Elected (Some false)) (cands s))
+     \/
+     (forall c', In c' (hopefuls A s) -> R (quo_of A c) <= R (quo_of A c')) /\
+       stl (cands (qpq_step A cfg s)) = stl (upd_cand A (cid c) (fun x => with_st x Defeated (cpend x)) (cands s))).
+Proof.
+  intros Hcf. unfold qpq_step in *. destruct (max_quo A (hopefuls A s)) as [hq|] eqn:Emax; [|rewrite sticky_set_crash in Hcf; discriminate].
+  destruct (gtv A hq (quota s)).
+  - set (highs := filter (fun c => eqv A (quo_of A c) hq) (hopefuls A s)) in *.
+    pose proof (break_tie_cands A cfg (qpq_tie "largest quotient") highs s) as Ec.
+    pose proof (break_tie_spec A cfg (qpq_tie "largest quotient") highs s) as Hsp.
+    pose proof (break_tie_none_crashes A cfg (qpq_tie "largest quotient") highs s) as Hno.
+    destruct (break_tie A cfg (qpq_tie "largest quotient") highs s) as [s1 [h|]] eqn:Eb; cbn [fst snd] in *.
+    2:{ destruct (Hno s1 eq_refl) as [_ ->]. rewrite sticky_set_crash in Hcf. discriminate. }
+    destruct (Hsp h s1 eq_refl) as [(c & Hch & Hid) _]. unfold highs in Hch. apply filter_In in Hch. destruct Hch as [Hhop Hv].
+    rewrite (r_eqv_exact A S ZL Hex) in Hv. apply Z.eqb_eq in Hv.
+    exists c. split; [exact Hhop|]. left. split; [intros c' Hc'; rewrite Hv; exact (max_quo_spec _ hq Emax c' Hc')|].
+    assert (Hi1: In h (map (@cid A) (cands s1))).
+    { rewrite Ec, <- Hid. apply in_map. unfold hopefuls in Hhop. apply filter_In in Hhop. exact (proj1 Hhop). }
+    assert (E2: stl (cands (elect A cfg h "Elect high quotient" false s1)) = stl (upd_cand A (cid c) (fun x => with_st x Elected (Some false)) (cands s))).
+    { unfold elect. destruct (find_cand_in A _ _ Hi1) as [c0 ->]. rewrite (cands_log A cfg). unfold upd. cbn [cands set_cands]. rewrite Ec, Hid. reflexivity. }
+    set (s2 := elect A cfg h "Elect high quotient" false s1) in *. destruct (crashed s2); [exact E2|].
+    destruct (divv A _ _); [|exact E2]. rewrite (cands_log A cfg). cbn [cands set_ballots]. exact E2.
+  - destruct (min_quo A (hopefuls A s)) as [lq|] eqn:Emin; [|rewrite sticky_set_crash in Hcf; discriminate].
+    set (lows := filter (fun c => eqv A (quo_of A c) lq) (hopefuls A s)) in *.
+    pose proof (break_tie_cands A cfg (qpq_tie "smallest quotient") lows s) as Ec.
+    pose proof (break_tie_spec A cfg (qpq_tie "smallest quotient") lows s) as Hsp.
+    pose proof (break_tie_none_crashes A cfg (qpq_tie "smallest quotient") lows s) as Hno.
+    destruct (break_tie A cfg (qpq_tie "smallest quotient") lows s) as [s1 [l|]] eqn:Eb; cbn [fst snd] in *.
+    2:{ destruct (Hno s1 eq_refl) as [_ ->]. rewrite sticky_set_crash in Hcf. discriminate. }
+    destruct (Hsp l s1 eq_refl) as [(c & Hcl & Hid) _]. unfold lows in Hcl. apply filter_In in Hcl. destruct Hcl as [Hhop Hv].
+    rewrite (r_eqv_exact A S ZL Hex) in Hv. apply Z.eqb_eq in Hv.
+    exists c. split; [exact Hhop|]. right. split; [intros c' Hc'; rewrite Hv; exact (min_quo_spec _ lq Emin c' Hc')|].
+    assert (Hi1: In l (map (@cid A) (cands s1))).
+    { rewrite Ec, <- Hid. apply in_map. unfold hopefuls in Hhop. apply filter_In in Hhop. exact (proj1 Hhop). }
+    assert (E2: stl (cands (defeat A cfg l "Defeat low quotient" s1)) = stl (upd_cand A (cid c) (fun x => with_st x Defeated (cpend x)) (cands s))).
+    { unfold defeat. destruct (find_cand_in A _ _ Hi1) as [c0 ->]. rewrite (cands_log A cfg). unfold upd. cbn [cands set_cands]. rewrite Ec, Hid. reflexivity. }
+    set (s2 := defeat A cfg l "Defeat low quotient" s1) in *. destruct (crashed s2); [exact E2|].
+    cbn [cands set_flag]. rewrite (cands_log A cfg). cbn [cands set_ballots]. exact E2.
 Qed.
 End LE.
